@@ -106,24 +106,32 @@ def gen_nogc_consts():
     isin = _fn_body(gc, r"pub fn is_in_no_gc\s*\(&self\)\s*->\s*bool\s*\{")
     if isin is None or " ".join(isin.split()) != "{ self.no_gc_depth > 0 }":
         raise ExtractError("is_in_no_gc changed shape")
-    # emission order in compile_typed_return: ExitNoGc before / after compile_typed_expr
-    cf = strip_comments(rd("backend/src/compiler/stmt/control_flow.rs"))
-    ret = _fn_body(cf, r"pub fn compile_typed_return\s*\(")
-    if ret is None:
-        raise ExtractError("compile_typed_return not found")
-    pe = ret.find("OpCode::ExitNoGc")
-    px = ret.find("self.compile_typed_expr(")
-    pr = ret.find("OpCode::Return,")
-    if px < 0 or pr < 0:
-        raise ExtractError("compile_typed_return changed shape")
-    if pe < 0:
-        order = "RetNoExit"
-    elif pe < px:
-        order = "RetExitFirst"
-    elif pe < pr:
-        order = "RetExitAfterExpr"
-    else:
-        raise ExtractError("compile_typed_return: ExitNoGc emitted after Return")
+    # emission order of ExitNoGc relative to the return expression: read from the source text when the
+    # shape is the known one, and always cross-checked against compiled code (behavioural probe: the
+    # harness compiles `@no_gc fn f(a, b) { return a + b }` and observes at which depth the concatenation
+    # runs and where the depth ends); when the text shape is gone the probe alone decides
+    text_order = None
+    try:
+        cf = strip_comments(rd("backend/src/compiler/stmt/control_flow.rs"))
+        ret = _fn_body(cf, r"pub fn compile_typed_return\s*\(")
+        if ret is not None:
+            pe = ret.find("OpCode::ExitNoGc")
+            px = ret.find("self.compile_typed_expr(")
+            pr = ret.find("OpCode::Return,")
+            if pe >= 0 and px >= 0 and pr >= 0:
+                text_order = "RetExitFirst" if pe < px else "RetExitAfterExpr" if pe < pr else None
+    except ExtractError:
+        pass
+    import vlib
+    ok, paths, log = vlib.harness_build(["hx_nogc"])
+    if not ok:
+        raise ExtractError("cannot build hx_nogc for the emission-order probe: " + log[-300:])
+    rc, out = vlib.sh([paths["hx_nogc"], "--probe-order"], timeout=120)
+    order = out.split()[0] if out.split() else "PROBE-FAILED"
+    if rc != 0 or order not in ("RetExitFirst", "RetExitAfterExpr", "RetNoExit"):
+        raise ExtractError("emission-order probe failed: " + out[-300:])
+    if text_order is not None and text_order != order and order != "RetNoExit":
+        raise ExtractError(f"compile_typed_return reads as {text_order} but compiled code behaves as {order}")
     tb = strip_comments(rd("backend/src/compiler/functions/typed_body.rs"))
     body = _fn_body(tb, r"fn compile_typed_body\s*\(")
     if body is None:
